@@ -1020,7 +1020,9 @@ func (ctx *RenderContext) EvaluateExpression(node Node) (interface{}, error) {
 				// Evaluate the object
 				obj, err := ctx.EvaluateExpression(getAttrNode.node)
 				if err != nil {
-					return false, nil // If can't evaluate the object, it's not defined
+					// A failure while evaluating the object (a failing function, filter or test)
+					// is a failure of the render, not an undefined attribute
+					return false, err
 				}
 
 				// If obj is nil, attribute not defined
